@@ -28,12 +28,48 @@ func reg(name string, f intrinsic) { intrinsics[name] = f }
 
 const vp = "verifharness/verif."
 
-func (e *Engine) modelOf(r QueryResult) ModelMap {
-	m := ModelMap{}
-	for _, kv := range parseModel(r.Model) {
-		m[kv.Key] = kv.Val.JSON()
+// modelOf turns the positional get-value answer into a replayable counterexample:
+// first the declared variables, then (key, initial value) of every store read, then every decoded leaf.
+func (e *Engine) modelOf(r QueryResult, names []string) *CexModel {
+	kvs := parseModel(r.Model)
+	cm := &CexModel{Vars: ModelMap{}}
+	i := 0
+	for _, n := range names {
+		if i >= len(kvs) {
+			return cm
+		}
+		if !strings.HasPrefix(n, "store0:") {
+			cm.Vars[n] = kvs[i].Val.JSON()
+		}
+		i++
 	}
-	return m
+	w := e.world
+	for _, rd := range w.readLog {
+		if i+1 >= len(kvs) {
+			return cm
+		}
+		cm.Reads = append(cm.Reads, ReadRec{Store: rd.store, Key: fmt.Sprintf("%x", kvs[i].Val.S), Val: fmt.Sprintf("%x", kvs[i+1].Val.S)})
+		i += 2
+	}
+	for _, d := range w.decodeLog {
+		if i >= len(kvs) {
+			return cm
+		}
+		rec := DecodeRec{Bz: fmt.Sprintf("%x", kvs[i].Val.S), Type: d.typ, Fields: ModelMap{}}
+		i++
+		for _, l := range d.leaves {
+			if i >= len(kvs) {
+				break
+			}
+			rec.Fields[l.path] = kvs[i].Val.JSON()
+			i++
+		}
+		cm.Decodes = append(cm.Decodes, rec)
+	}
+	for k, v := range w.choiceValues {
+		cm.Vars[k] = v
+	}
+	return cm
 }
 
 // checkObligation discharges prop under the current path condition.
@@ -47,15 +83,15 @@ func (e *Engine) checkObligation(kind, label string, prop *T) {
 		e.obligs = append(e.obligs, ob)
 		return
 	}
-	r, _, _ := e.solve([]*T{Not(prop)}, true, e.cfg.AssertTimeoutMs, e.world.modelTerms())
+	r, names, rounds := e.solveConcrete([]*T{Not(prop)}, e.cfg.AssertTimeoutMs)
+	if rounds > 0 {
+		ob.Site = fmt.Sprintf("concretisation rounds: %d", rounds)
+	}
 	ob.Verdict = r.Res
 	ob.Solver = r.Solver
 	ob.Ms = time.Since(t0).Milliseconds()
 	if r.Res == "sat" {
-		ob.Model = e.modelOf(r)
-		for k, v := range e.world.choiceValues {
-			ob.Model[k] = v
-		}
+		ob.Model = e.modelOf(r, names)
 	}
 	e.obligs = append(e.obligs, ob)
 }
@@ -126,10 +162,10 @@ func init() {
 			return nil // one satisfiable witness per label is enough
 		}
 		t0 := time.Now()
-		r, _, _ := e.solve(nil, true, e.cfg.AssertTimeoutMs, nil)
+		r, names, _ := e.solve(nil, true, e.cfg.AssertTimeoutMs, e.world.modelTerms())
 		if r.Res == "sat" {
 			e.reachSeen[label] = true
-			ob := Obligation{Harness: e.harness, Kind: "reach", Label: label, Verdict: "sat", Solver: r.Solver, Ms: time.Since(t0).Milliseconds(), Path: e.pathNo, Model: e.modelOf(r)}
+			ob := Obligation{Harness: e.harness, Kind: "reach", Label: label, Verdict: "sat", Solver: r.Solver, Ms: time.Since(t0).Milliseconds(), Path: e.pathNo, Model: e.modelOf(r, names)}
 			e.obligs = append(e.obligs, ob)
 		} else {
 			e.pathLabels = append(e.pathLabels, "reach:"+label+"="+r.Res)
@@ -137,6 +173,9 @@ func init() {
 		}
 		return nil
 	})
+	noop := func(e *Engine, fn *ssa.Function, a []Value) Value { return nil }
+	reg(vp+"RegisterType", noop)
+	reg(vp+"MountStores", noop)
 	reg(vp+"Note", func(e *Engine, fn *ssa.Function, a []Value) Value {
 		e.note(constStr(a[0], "note"))
 		return nil
